@@ -206,6 +206,8 @@ func (m *MTProto) makeRequest(data tl.Object, expectedTypes ...reflect.Type) (an
 	case *errorSessionConfigsChanged:
 		return m.makeRequest(data, expectedTypes...)
 
+	case *errorServiceReply:
+		return nil, r.err
 	}
 
 	return tl.UnwrapNativeTypes(response), nil
@@ -289,6 +291,13 @@ func (m *MTProto) startReadingResponses(ctx context.Context) {
 				case context.Canceled:
 					return
 				case io.EOF:
+					if m.serviceModeActivated {
+						// closed in the middle of the key exchange: the exchange ends with an error and its
+						// caller decides what to do. reconnecting from here would start second exchange
+						// while the first one is still waiting for its answer
+						m.failKeyExchange(ctx, errors.New("connection closed by server during key exchange"))
+						return
+					}
 					err = m.Reconnect()
 					if err != nil {
 						m.warnError(errors.Wrap(err, "can't reconnect"))
@@ -296,11 +305,24 @@ func (m *MTProto) startReadingResponses(ctx context.Context) {
 				default:
 					// a message we can't read or process (unknown constructor, broken body, answer to a
 					// request nobody waits for, transport error code...) is reported, the next one is read
+					if m.serviceModeActivated {
+						// ...but the key exchange waits for exactly one answer to each of its requests: what
+						// came instead of it is its answer, otherwise makeAuthKey would wait for ever
+						m.failKeyExchange(ctx, err)
+					}
 					m.warnError(err)
 				}
 			}
 		}
 	}()
+}
+
+// failKeyExchange hands err to the request of the key exchange which waits for its answer on serviceChannel
+func (m *MTProto) failKeyExchange(ctx context.Context, err error) {
+	select {
+	case m.serviceChannel <- &errorServiceReply{err: err}:
+	case <-ctx.Done():
+	}
 }
 
 func (m *MTProto) readMsg(conn transport.Transport) error {
